@@ -99,6 +99,7 @@ fn exec_grid(prog: &Prog, sizes: [usize; 4], slack: [usize; 4], value_seed: u64,
             ("b0".into(), Lit::Bool(g.coin())),
         ],
         limit: 10,
+        wrap: 0,
     };
     let Ok(state) = build_real(&init) else {
         return vec![Violation::new(
